@@ -15,6 +15,7 @@ package json
 //@ ghostvar jdepth int
 // c10_due: ghost, a member whose path matched a value-less query has been consumed completely
 //@ ghostvar c10_due bool
+//@ ghostvar c10_dueval bool
 
 //@ pool parserPool invariant p.maxRecursion == maxRecursion
 
@@ -93,6 +94,10 @@ package json
 //@   ghost entry: c10_due = false
 //@   ghost after consumeValue: c10_due = c10_due || ($ret1 && queryMatched != -1 && len(qs[queryMatched].SearchVals) == 0)
 //@   ensures [C10_decided] c10_due ==> p.querySatisfied
+//@   ghost entry: c10_dueval = false
+//@   ghost after consumeValue: c10_dueval = c10_dueval || ($ret1 && queryMatched != -1 && (exists v :: 0 <= v && v < len(qs[queryMatched].SearchVals) && qs[queryMatched].SearchVals[v] == trimSpace(b[n:n+$ret0])))
+//@   ensures [C10_decided_val] c10_dueval ==> p.querySatisfied
+//@   loop 1 invariant [C10_dueval_inv] c10_dueval ==> p.querySatisfied
 //@   loop 1 invariant [C10_due_inv] c10_due ==> p.querySatisfied
 //@   ensures [C10_mono] old(p.querySatisfied) ==> p.querySatisfied
 //@   requires [C08_depth] lvl == jdepth + 1
@@ -115,6 +120,8 @@ package json
 //@   loop 1 invariant [C10_mono_inv] old(p.querySatisfied) ==> p.querySatisfied
 //@   loop 1 decreases len(b) - n
 //@   loop 2 invariant [C10_due_inv2] (c10_due ==> p.querySatisfied) && (old(p.querySatisfied) ==> p.querySatisfied)
+//@   loop 2 invariant [C10_dueval_inv2] (exists v :: 0 <= v && v <= rangeindex && q.SearchVals[v] == trimSpace(b[n:n+valLen])) ==> p.querySatisfied
+//@   loop 2 invariant [C10_dueval_inv3] c10_dueval ==> p.querySatisfied || (exists v :: 0 <= v && v < len(q.SearchVals) && q.SearchVals[v] == trimSpace(b[n:n+valLen]))
 
 //@ func json.(*parserState).consumeValue
 //@   ensures [C10_mono] old(p.querySatisfied) ==> p.querySatisfied
